@@ -8,6 +8,7 @@ import (
 	"io"
 	"net"
 	"net/textproto"
+	"os"
 	"sort"
 	"strings"
 	"time"
@@ -81,9 +82,9 @@ func errTag(err error) string {
 		return fmt.Sprintf("reply%d", te.Code)
 	case errors.Is(err, errBlocksForever):
 		return "blocked"
-	case strings.Contains(err.Error(), "virtual deadline"):
+	case strings.Contains(err.Error(), "virtual deadline") || errors.Is(err, os.ErrDeadlineExceeded):
 		return "timeout"
-	case errors.Is(err, io.EOF) || errors.Is(err, io.ErrUnexpectedEOF):
+	case errors.Is(err, io.EOF) || errors.Is(err, io.ErrUnexpectedEOF) || errors.Is(err, io.ErrClosedPipe):
 		return "eof"
 	case errors.As(err, &pe):
 		return "proto"
@@ -258,6 +259,15 @@ func traceStrings(evs []Event) []string {
 			out = append(out, "deadline")
 		case "stall-armed", "stall-unarmed":
 			out = append(out, e.Kind)
+		case "tls-on", "tls-fail", "tls-accepted-bad-cert":
+			out = append(out, e.Kind)
+		}
+	}
+	// a failed handshake is noticed by both ends at the same time: the server thread records
+	// "tls-fail", the client thread "close"; normalise to the model's order
+	for i := 0; i+1 < len(out); i++ {
+		if out[i] == "close" && out[i+1] == "tls-fail" {
+			out[i], out[i+1] = out[i+1], out[i]
 		}
 	}
 	// The scripted server sends its greeting as soon as the connection exists, i.e. before the client
